@@ -8,7 +8,7 @@ Vario, Model, the CSV reader; AnamDiscreteDD / IR, AnamEmpirical, DbLine, MeshET
 {fail, ok(object dump)} must equal the model's (the code as it is now); a file on which the implementation behaves as the reader
 model BEFORE a fix is reported under the key of the old failure (regression); for every class a signal, a sanitizer report, an escaped
 exception, a time-out, an allocation out of proportion with the file, or a returned object that cannot be printed / saved / reloaded
-is a violation with the file as replay. The grid exchange formats have no model (generic rules only).
+is a violation with the file as replay. The BMP reader has a model of its header / palette / pixel logic (coq/C09/Readers5.v); the text grid formats have none (generic rules).
 """
 import sys, os, re, base64, tempfile, shutil, subprocess, time, resource
 from concurrent.futures import ThreadPoolExecutor
@@ -25,7 +25,7 @@ ENTRY = {30: 'Db::createFromCSV', 31: 'Db::createFromCSV', 32: 'Db::createFromCS
 TAGS = {1: b'Db', 2: b'DbGrid', 3: b'Table', 4: b'Polygon', 5: b'Vario', 6: b'Model', 7: b'NeighMoving', 8: b'NeighUnique',
         9: b'NeighBench', 10: b'AnamHermite', 11: b'PolyLine2D', 12: b'MeshETurbo', 13: b'Rule', 14: b'Faults', 15: b'NeighImage',
         16: b'NeighCell', 17: b'AnamEmpirical', 18: b'AnamDiscreteDD', 19: b'AnamDiscreteIR', 20: b'DbLine', 21: b'PolyElem'}
-MODELLED = {1, 2, 3, 4, 11, 14, 21, 5, 6, 7, 8, 9, 10, 13, 15, 16, 30, 31, 32, 33, 34}
+MODELLED = {1, 2, 3, 4, 11, 14, 21, 5, 6, 7, 8, 9, 10, 13, 15, 16, 30, 31, 32, 33, 34, 43}
 # readers whose model (coq/C09/Readers4.v) is the reader WITH the guards of the proposed fixes/C09_19 .. C09_22: the class joins
 # MODELLED when the implementation shows the guard on the probe file (it fails cleanly instead of throwing), else the generic
 # rules apply to it (and report the unguarded count under its known key)
@@ -42,7 +42,7 @@ ASAN = ('detect_leaks=0:abort_on_error=0:exitcode=86:allocator_may_return_null=1
 def entry(cls): return ENTRY.get(cls, CLS[cls] + '::createFromNF')
 
 # model sites -> (function, kind of defect)
-SITE = {100: 'Db::createFromCSV', 101: 'Db::createFromCSV', 62: 'AnamDiscrete::_deserialize', 64: 'AnamDiscrete::_deserialize', 65: 'AnamEmpirical::_deserialize',
+SITE = {100: 'Db::createFromCSV', 101: 'Db::createFromCSV', 110: 'db_grid_read_bmp', 62: 'AnamDiscrete::_deserialize', 64: 'AnamDiscrete::_deserialize', 65: 'AnamEmpirical::_deserialize',
         63: 'DbLine::_deserialize', 74: 'MeshETurbo::_deserialize', 50: 'value-loop', 51: 'Rule::_deserialize', 52: 'Rule::_deserialize', 61: 'AnamHermite::_deserialize', 71: 'ANeigh::_deserialize', 72: 'NeighMoving::_deserialize', 73: 'NeighImage::_deserialize',
         81: 'Vario::_deserialize', 82: 'Vario::_deserialize', 83: 'Vario::_deserialize', 84: 'Vario::_deserialize', 91: 'Model::_deserialize', 92: 'Model::_deserialize', 93: 'Model::_deserialize', 94: 'Model::_deserialize',
         1: '_recordRead', 11: '_recordReadVec<String>(locators)', 12: '_recordReadVec<String>(names)', 13: 'Db::_deserialize',
@@ -161,6 +161,14 @@ def dump_equal(cls, di, dm):
         if cls == 13: return di[0] == dm[0] and num_close(di[1], dm[1])
         if cls == 10: return di[0] == dm[0] and num_close(di[2], dm[2])     # the coefficients returned by getPsiHns depend on r (point -> block): not compared
         if cls in (8, 16, 7, 6, 15): return list(di) == list(dm)
+        if cls == 43:
+            # impl: dump of the DbGrid; model: (nx0 nx1 dx0 dx1 (values)), -1 = a value the model does not predict
+            g, db = di
+            vals = dm[4]
+            nech = dm[0] * dm[1]
+            img = db[5][-nech:]          # DbGrid::reset adds the rank and the two coordinates: the image is the last of the 4 columns
+            return (g[0] == 2 and list(g[1]) == [dm[0], dm[1]] and nums_close(g[3], [dm[2], dm[3]]) and db[0] == 4 and db[1] == nech
+                    and len(db[5]) == 4 * nech and len(vals) == nech and all(v < 0 or (a != [] and undy(a) == v) for a, v in zip(img, vals)))
         if cls == 12: return di[0] == dm[0] and list(di[1]) == list(dm[1]) and di[2] == dm[2] and di[3] == dm[3]
         if cls == 9: return di[0] == dm[0] and num_close(di[1], dm[1])
         if cls == 5: return di[0] == dm[0] and di[1] == dm[1] and di[2] == dm[2] and di[3] == dm[3] and di[4] == dm[4]
@@ -349,6 +357,50 @@ def csv_cases(rng, quick):
         out.append((30 + i % 5, 'csv-bytes', bytes(rng.choice(b'0123456789,;.\n\n"-eNA x') for _ in range(rng.choice([5, 30, 120])))))
     return out
 
+# field-aware corruptions of the binary format: every field of the two BMP headers set to each value of a boundary list, the depth
+# and the number of colours crossed; bases: the 24-bit file of the library, an 8-bit indexed image with its palette (colours used
+# declared / left to 0 as drawing software does), a 32-bit image
+BMP_FIELDS = [('type', 0, 2), ('file-size', 2, 4), ('reserved', 6, 4), ('offset', 10, 4), ('info-size', 14, 4), ('width', 18, 4), ('height', 22, 4),
+              ('planes', 26, 2), ('bits', 28, 2), ('compression', 30, 4), ('image-size', 34, 4), ('xppm', 38, 4), ('yppm', 42, 4),
+              ('colours-used', 46, 4), ('colours-important', 50, 4)]
+BMP_BOUND = [-1, 0, 1, 2, 3, 8, 255, 256, 257, 65535, 65536, 2 ** 31 - 1, -2 ** 31]
+BMP_BITS = [1, 4, 8, 9, 12, 15, 16, 23, 24, 32]
+BMP_COLOURS = [-1, 0, 1, 255, 256, 257, 65536]
+def bmp_put(data, off, size, v):
+    if len(data) < off + size: return data
+    return data[:off] + (v & (2 ** (8 * size) - 1)).to_bytes(size, 'little') + data[off + size:]
+def bmp_make(w, h, bits, used, npal):
+    rowb = (w * bits + 7) // 8; pad = (4 - rowb % 4) % 4
+    pal = b''.join(bytes([i % 256, (2 * i) % 256, (3 * i) % 256, 0]) for i in range(npal))
+    pix = b''.join(bytes((7 * (x + y * w * 3) + 1) % 251 for x in range(rowb)) + b'\0' * pad for y in range(h))
+    off = 54 + len(pal)
+    hdr = b'BM' + (off + len(pix)).to_bytes(4, 'little') + b'\0' * 4 + off.to_bytes(4, 'little')
+    info = (40).to_bytes(4, 'little') + w.to_bytes(4, 'little') + h.to_bytes(4, 'little') + (1).to_bytes(2, 'little') + bits.to_bytes(2, 'little') + \
+           (0).to_bytes(4, 'little') + len(pix).to_bytes(4, 'little') + (2835).to_bytes(4, 'little') * 2 + used.to_bytes(4, 'little') + (0).to_bytes(4, 'little')
+    return hdr + info + pal + pix
+def bmp_cases(lib_files):
+    out = []
+    bases = list(lib_files) + [bmp_make(5, 4, 8, 256, 256), bmp_make(5, 4, 8, 0, 256), bmp_make(5, 4, 8, 16, 16), bmp_make(3, 2, 32, 0, 0), bmp_make(4, 3, 24, 0, 0), bmp_make(4, 3, 16, 0, 0)]
+    for b in bases:
+        out.append((43, 'field:base', b))
+        for name, off, size in BMP_FIELDS:
+            for v in BMP_BOUND: out.append((43, 'field:' + name, bmp_put(b, off, size, v)))
+        for bits in BMP_BITS:
+            for used in BMP_COLOURS: out.append((43, 'field:bits+colours', bmp_put(bmp_put(b, 28, 2, bits), 46, 4, used)))
+        for w in (0, 1, 3, 65536):
+            for h in (-1, 0, 1, 65536): out.append((43, 'field:width+height', bmp_put(bmp_put(b, 18, 4, w), 22, 4, h)))
+    return out
+# the text formats: each numeric token of the header lines set to each value of a boundary list
+TXT_BOUND = [b'-1', b'0', b'1', b'2', b'255', b'256', b'257', b'65536', b'99999999', b'2147483647', b'-2147483648', b'1e30', b'-1e30', b'0.5', b'NA', b'abc', b'']
+def header_field_cases(cls, data, nlines=14, ntok=48):
+    out = []
+    lines = data.split(b'\n')
+    head = b'\n'.join(lines[:nlines])
+    toks = [m.span() for m in re.finditer(rb'(?<![A-Za-z_])[-+]?\d+(?:\.\d*)?(?:[eE][-+]?\d+)?', head)][:ntok]
+    for a, b in toks:
+        for v in TXT_BOUND: out.append((cls, 'field:header', data[:a] + v + data[b:]))
+    return out
+
 # ----------------------------------------------------------------------------- main
 PHASES = {}
 def timed(name, f, *a, **k):
@@ -453,6 +505,10 @@ def check(ctx, quick, rng, runner, exe, tmpdir, proofs_ok):
                     cases.append((cls, 'number:' + w.decode(), b'\n'.join(lines[:i] + [re.sub(rb'(\d+)(\D*)$', w.replace(b'\\', b'') + rb'\2', lines[i], count=1)] + lines[i + 1:])))
     for cls in sorted(set(c for c, _ in corpus if c < 30)):
         for lab, d in byte_streams(rng, cls, 12 if quick else 200): cases.append((cls, lab, d))
+    # field-aware corruptions of the grid exchange formats (small files: always run, under ASan)
+    cases += bmp_cases([d for c, d in corpus if c == 43])
+    for cls, data in corpus:
+        if cls in (40, 41, 42): cases += header_field_cases(cls, data)
     # MeshETurbo with masks (the library writes none for a complete grid): ranks inside / outside the grid, array and map storage,
     # a grid out of proportion with the file
     def turbo(nx, mode, mesh, grid):
@@ -643,7 +699,7 @@ def check(ctx, quick, rng, runner, exe, tmpdir, proofs_ok):
                        'memory safety of code downstream of the readers (std::string, Eigen, destructors) is runtime evidence only (ASan on the explored files)',
                        'the theorems of coq/C09/Properties.v speak about the readers as they are now (every fix of fixes/C09_1 .. C09_17 is in /repo: cfg_fixed, p_all); '
                        'the theorems about AnamDiscreteDD / IR, AnamEmpirical, DbLine, MeshETurbo (C09_pending_*) and C09_csv_no_exception speak about the readers WITH the proposed fixes/C09_18 .. C09_22; '
-                       'the grid exchange formats (Zycor, IfpEn, F2G, BMP) have no reader model (generic safety rules only)',
+                       'the text grid exchange formats (Zycor, IfpEn, F2G) have no reader model (generic safety rules only); BMP: the 32-bit pixel value and the palette entries the file does not set are not predicted by the model (dimensions only)',
                        'Model: the construction of a covariance / a drift from its identifier is an oracle of the reader model (theorems hold whatever it answers)']
     ctx.level = 'proof (reader logic) + runtime evidence (memory safety downstream)'
 
